@@ -78,10 +78,9 @@ def h_ctor(F, R):
             R.check(ok, "H-ctor", "%s/site/%s" % (name, f["root"]),
                     "%s is constructed in %s, outside its validating constructor: decoded packets may then carry an invalid %s" % (name, f["root"], name), where=loc(x))
         R.floor("H-ctor", "%s construction sites" % name, len([1 for fid, f, x in lst if (f.get("impl_trait") or "").rsplit("::", 1)[-1] != "Arbitrary"]), 1)
-    # the validating constructors themselves
-    _pid_ctor(F, R)
-    _topic_ctor(F, R, "TopicName", "InvalidTopicName")
-    _topic_ctor(F, R, "TopicFilter", "InvalidTopicFilter")
+    # the validating constructors themselves, evaluated (r_pe3)
+    import r_pe3
+    r_pe3.h_ctor_values(F, R)
     _default_valid(F, R)
 
 
@@ -149,11 +148,6 @@ def _default_valid(F, R):
         v = const_eval(inner)
         isdef = inner.get("k") == "Call" and inner["fn"].get("name") == "default" and (inner.get("ty") == "u32")
         R.check((v is not None and v < 268435456) or isdef, "H-ctor", "VarByteInt/default", "VarByteInt::default() is %s" % pp(b)[:80], where=dv)
-    d = F.impl_method("Default", "common::types::Pid", "default")
-    if d:
-        b = unblock(nbody(F, d))
-        v = const_eval(b["fields"][0]["e"]) if b.get("k") == "Adt" and b["fields"] else None
-        R.check(v is not None and v != 0, "H-ctor", "Pid/default", "Pid::default() is Pid(%r)" % v, where=d)
 
 
 # ---- H-utf8 / S-unsafe(read_string) ------------------------------------------------------------------------
@@ -200,45 +194,8 @@ def h_utf8(F, R):
     b = nbody(F, fid)
     if b is None:
         raise AnchorLost(fid)
-    un = [x for x in walk_all(b) if x.get("k") == "Call" and x["fn"].get("name") in ("from_utf8_unchecked", "from_utf8_unchecked_mut", "from_raw_parts")]
-    R.check(len(un) == 1, "H-utf8", "read_string/one-unchecked-site", "read_string has %d unchecked string constructions" % len(un), where=fid)
-    if un:
-        buf = pp(strip(un[0]["args"][0]))
-        # straight-line: the statement list of the body block
-        blk = None
-        for x in walk_all(b):
-            if x.get("k") == "Block" and x.get("stmts") and any(un[0] is y for y in walk_all(x.get("expr") or {})):
-                blk = x
-        ok = False
-        if blk is not None:
-            validated = False
-            for s in blk.get("stmts", []):
-                e = s.get("init") if s["k"] == "Let" else s.get("e")
-                if e is None:
-                    continue
-                for y in _walk_straight(e):
-                    if y.get("k") == "Try":
-                        inner = strip(y["e"])
-                        if inner.get("k") == "Call" and inner["fn"].get("name") == "map_err":
-                            inner = strip(inner["args"][0])
-                        if inner.get("k") == "Call" and inner["fn"].get("def") == "simdutf8::basic::from_utf8" and \
-                                pp(peel_as_str(inner["args"][0])).lstrip("&*") == buf:
-                            validated = True
-                    if validated and y.get("k") in ("Assign", "AssignOp") and buf in pp(y["l"]):
-                        validated = False
-                    if validated and y.get("k") == "Borrow" and y.get("mut") and pp(strip(y["e"])) == buf:
-                        validated = False
-            ok = validated
-            # no branch may reach the unchecked site around the validation
-            for x in walk_all(b):
-                if x.get("k") in ("If", "Match") and any(un[0] is y for y in walk_all(x)):
-                    ok = False
-                if x.get("k") == "Return":
-                    e = x.get("e") or {}
-                    if any(y.get("k") == "Adt" and y.get("variant") == "Ok" for y in walk_all(e)):
-                        ok = False
-        R.check(ok, "H-utf8", "read_string/validated-before-unchecked",
-                "read_string builds a String with from_utf8_unchecked(%s) on a path that does not pass simdutf8::basic::from_utf8(&%s)? first" % (buf, buf), where=loc(un[0]))
+    import r_pe3
+    r_pe3.h_utf8_values(F, R)
     # no other unchecked / lossy string construction anywhere in the crate
     n = 0
     for f2, f, bb in all_bodies(F):
@@ -316,38 +273,9 @@ def s_unsafe(F, R):
 # ---- H-payfmt -----------------------------------------------------------------------------------------------
 
 def h_payfmt(F, R):
-    """A payload flagged as UTF-8 is validated (simdutf8::basic::from_utf8 on the very buffer that becomes
-    the payload) before the packet is built."""
-    for fid, field in (("v5::publish::Publish::decode_async", "payload"), ("v5::connect::LastWill::decode_async", "payload")):
-        b = nbody(F, fid)
-        if b is None:
-            raise AnchorLost(fid)
-        found = False
-        for x in walk_all(b):
-            if x.get("k") != "If":
-                continue
-            c = unblock(x["cond"])
-            if c.get("k") != "Logical" or c["op"] != "And":
-                continue
-            l, r = unblock(c["l"]), unblock(c["r"])
-            flag = pp(l) in ("(properties.payload_is_utf8 Eq Option::Some{0: true})", "(*properties.payload_is_utf8 Eq Option::Some{0: true})")
-            chk = r.get("k") == "Call" and r["fn"].get("def") == "core::result::Result::<T, E>::is_err" and \
-                strip(r["args"][0]).get("k") == "Call" and strip(r["args"][0])["fn"].get("def") == "simdutf8::basic::from_utf8"
-            errs = [y for y in walk_all(x["then"]) if y.get("k") == "Adt" and y.get("adt") == "v5::error::ErrorV5"]
-            rej = len(errs) == 1 and errs[0]["variant"] == "InvalidPayloadFormat" and any(y.get("k") == "Return" for y in walk_all(x["then"]))
-            if flag and chk and rej:
-                buf = pp(peel_as_str(strip(r["args"][0])["args"][0])).lstrip("&*")
-                # that buffer flows into the payload field of the constructed struct
-                ads = [y for y in walk_all(b) if y.get("k") == "Adt" and y.get("adt", "").startswith("v5::") and any(f["name"] == field for f in y["fields"])]
-                flows = False
-                for a in ads:
-                    pe = [f["e"] for f in a["fields"] if f["name"] == field][0]
-                    src = pp(pe)
-                    if buf in src or "payload" in src:
-                        flows = True
-                found = flows
-        R.check(found, "H-payfmt", fid.split("::")[2],
-                "%s: no `payload_is_utf8 == Some(true) && from_utf8(&payload).is_err() -> Err(InvalidPayloadFormat)` test on the buffer that becomes the payload" % fid, where=fid)
+    """See r_pe3.h_payfmt_values."""
+    import r_pe3
+    r_pe3.h_payfmt_values(F, R)
 
 
 # ---- H-accessors / H-fields / H-tn-read ---------------------------------------------------------------------------
